@@ -122,6 +122,28 @@ class Engine:
     def state_writes(self, ws: Iterable[Write]) -> set[Write]:
         return {w for w in ws if self.is_state_region(w.owner)}
 
+    # ------------------------------------------------- whole-program index
+    def call_index(self) -> dict:
+        """callee qualname -> [(caller FunctionInfo, event)] over *all* functions of the program."""
+        if getattr(self, "_call_index", None) is None:
+            idx: dict = {}
+            n_calls = 0
+            for f in list(self.P.all_functions()):
+                if f.kind == "overload":
+                    continue
+                fl = flow_of(self.R, f)
+                for _n, _i, e in fl.all_events():
+                    if e.kind in ("call", "getprop", "setprop"):
+                        n_calls += 1
+                        for c, _m in e.callees:
+                            idx.setdefault(c.innermost().qualname, []).append((f, e))
+            self._call_index = idx
+            self._n_call_events = n_calls
+        return self._call_index
+
+    def callers_of(self, callee: FunctionInfo) -> list:
+        return self.call_index().get(callee.qualname, [])
+
     # ----------------------------------------------------------- misc utils
     def flow(self, f: FunctionInfo | Callable_) -> FunctionFlow:
         return flow_of(self.R, f)
